@@ -31,7 +31,7 @@ def run(ctx, scratch):
     rng = ctx.rng
     quick = ctx.tier == 'quick'
     nmax = 9 if quick else 20
-    reps = 4 if quick else 30
+    reps = 16 if quick else 60
     with Impl(scratch) as impl:
         desc = impl.call('registry', 'describe', None, timeout=120)['ok']
         names = sorted(n for n, d in desc.items() if d['equiv'] and d['deterministic'])
@@ -68,6 +68,20 @@ def run(ctx, scratch):
                     for p in ps:
                         s2, o2 = cases.permute_case(spec, opts, list(p))
                         _one(ctx, impl, name, spec, opts, s2, o2, list(p), 'exh_%d' % n)
+        # graphs on 3 nodes WITH self-loops (every subset of loops), all / sampled permutations
+        loopy = []
+        for E in gen.all_undirected(3):
+            for mask in range(1, 8):
+                loopy.append(gen.sym(E) + [(v, v) for v in range(3) if mask >> v & 1])
+        if quick:
+            loopy = rng.sample(loopy, 24)
+        for S in loopy:
+            spec = dict(shape=[3, 3], coo=[[i, j, 1] for (i, j) in sorted(S)], dtype='int', fmt='csr')
+            for name in exact:
+                opts = cases.make_opts(rng, desc[name], 3, 3, False)
+                for p in (perms4[3] if not quick else rng.sample(perms4[3], 3)):
+                    s2, o2 = cases.permute_case(spec, opts, list(p))
+                    _one(ctx, impl, name, spec, opts, s2, o2, list(p), 'exh_3_loops')
         # Weisfeiler-Lehman: colouring = colour refinement; never "non-isomorphic" for a renumbered copy
         for k in range(150 if quick else 1500):
             if k < 60:
